@@ -1,5 +1,5 @@
-//! C04 / C05: the restricted integer types.  The list of conversions is generated from the
-//! crate's source (src/generated/convs.rs), so an impl added there is exercised here.
+//! C04 / C05: the restricted integer types.  The list of conversions is what the compiler sees
+//! (probe.rs), so any From / TryFrom impl between the numeric types is exercised here.
 use crate::common::*;
 use crate::rng::Rng;
 use helgoboss_midi::*;
@@ -96,79 +96,15 @@ impl_nt!(ControllerNumber, u8);
 
 type Sm = (bool, u128);
 
-fn nt_src<A: Nt>(x: Sm) -> Option<A> {
-    let v = <A::Repr as Prim>::from_sm(x.0, x.1)?;
-    region(|| A::mk(v))
-}
-
-macro_rules! conv_FromNN {
-    ($a:ty, $b:ty, $x:expr) => {{
-        match nt_src::<$a>($x) {
-            None => vec![-96],
-            Some(a) => match region(|| <$b>::from(a)) {
-                None => vec![PANIC],
-                Some(b) => vec![0, b.inner()],
-            },
-        }
-    }};
-}
-macro_rules! conv_FromNP {
-    ($a:ty, $p:ty, $x:expr) => {{
-        match nt_src::<$a>($x) {
-            None => vec![-96],
-            Some(a) => match region(|| <$p>::from(a)) {
-                None => vec![PANIC],
-                Some(v) => vec![0, v.to_obs()],
-            },
-        }
-    }};
-}
-macro_rules! conv_FromPN {
-    ($p:ty, $b:ty, $x:expr) => {{
-        match <$p as Prim>::from_sm($x.0, $x.1) {
-            None => vec![-96],
-            Some(v) => match region(|| <$b>::from(v)) {
-                None => vec![PANIC],
-                Some(b) => vec![0, b.inner()],
-            },
-        }
-    }};
-}
-macro_rules! conv_TryNN {
-    ($a:ty, $b:ty, $x:expr) => {{
-        match nt_src::<$a>($x) {
-            None => vec![-96],
-            Some(a) => match region(|| <$b>::try_from(a)) {
-                None => vec![PANIC],
-                Some(Ok(b)) => vec![0, b.inner()],
-                Some(Err(_)) => vec![1, NONE],
-            },
-        }
-    }};
-}
-macro_rules! conv_TryPN {
-    ($p:ty, $b:ty, $x:expr) => {{
-        match <$p as Prim>::from_sm($x.0, $x.1) {
-            None => vec![-96],
-            Some(v) => match region(|| <$b>::try_from(v)) {
-                None => vec![PANIC],
-                Some(Ok(b)) => vec![0, b.inner()],
-                Some(Err(_)) => vec![1, NONE],
-            },
-        }
-    }};
-}
-macro_rules! conv_TrySPN {
-    ($p:ty, $b:ty, $x:expr) => {
-        conv_TryPN!($p, $b, $x)
-    };
-}
-
-mod gen {
-    use super::*;
-    include!("generated/convs.rs");
-}
-pub use gen::{CONVS, NEWTYPES};
+/// the restricted types in grid order: (name, repr, MAX) -- MAX is the crate's own constant
+pub const NEWTYPES: [(&str, &str, i64); 6] = [
+    ("U4", "u8", U4::MAX.get() as i64),
+    ("U7", "u8", U7::MAX.get() as i64),
+    ("U14", "u16", U14::MAX.get() as i64),
+    ("Channel", "u8", Channel::MAX.get() as i64),
+    ("KeyNumber", "u8", KeyNumber::MAX.get() as i64),
+    ("ControllerNumber", "u8", ControllerNumber::MAX.get() as i64),
+];
 
 fn dec_sm(inp: &[i64]) -> Sm {
     let mag = ((inp[1] as u128) << 96) | ((inp[2] as u128) << 64) | ((inp[3] as u128) << 32) | (inp[4] as u128);
@@ -197,7 +133,7 @@ macro_rules! with_nt {
 
 pub fn exec(tag: i64, inp: &[i64]) -> Vec<i64> {
     match tag {
-        40 | 50 => gen::run_conv(inp[1], dec_sm(&inp[2..7])),
+        40 | 50 => crate::probe::run(inp[1], inp[2] as usize, inp[3] as usize, dec_sm(&inp[4..9])),
         41 => {
             let v = inp[2];
             with_nt!(inp[1], T => {
@@ -381,10 +317,11 @@ fn source_values(src: &str, r: &mut Rng, tier: Tier) -> Vec<Sm> {
 }
 
 fn gen_convs(tag: i64, cfg: i64, tier: Tier, r: &mut Rng, em: &mut Emitter) {
-    for (idx, (kind, src, _dst)) in CONVS.iter().enumerate() {
-        let key = format!("conv/kind={}", kind);
-        for x in source_values(src, r, tier) {
-            let mut inp = vec![cfg, idx as i64];
+    for (kind, s, d) in crate::probe::table() {
+        let cls = |i: usize| if i < crate::probe::N_NT { "newtype" } else { "primitive" };
+        let key = format!("conv/{}/{}->{}", if kind == 0 { "From" } else { "TryFrom" }, cls(s), cls(d));
+        for x in source_values(crate::probe::TYPES[s], r, tier) {
+            let mut inp = vec![cfg, kind, s as i64, d as i64];
             inp.extend_from_slice(&enc_sm(x));
             em.emit_k(&key, tag, inp);
         }
